@@ -15,7 +15,9 @@ from __future__ import annotations
 
 import copy
 import json
+import math
 import random
+import re
 from collections import OrderedDict
 from fractions import Fraction
 
@@ -29,6 +31,11 @@ THEOREMS = [
     'C06.inv_natypes_min',
     # symbols / masses padding
     'C06.symbols_padded', 'C06.masses_padded', 'C06.sysNatypes_ge', 'C06.symbolsSet_pads',
+    # the observers (symbols, masses, natypes, atypes, composition) over the lazily padded hidden tuples: closed form
+    # of every reply, every view padded in every state, reads only replace a stored tuple by its view, and what a
+    # getter replies does not depend on which getters were read before it, on which systems, in which order
+    'C06.observer_closed_form', 'C06.observers_padded', 'C06.observer_keeps_views', 'C06.read_order_irrelevant',
+    'C06.observers_padded_any_order', 'C06.massesGet_stores',
     # refinement to the record-per-atom specification: slicing / copying
     'C06.refines_getItem', 'C06.refines_deepcopy', 'C06.deepcopy_rows', 'C06.getItem_error_unchanged',
     'C06.GetItemRes.operand_unchanged', 'C06.GetItemRes.copy_fresh', 'C06.deepcopy_fresh',
@@ -93,7 +100,13 @@ RULE = ('histories of 4-30 operations over up to 7 live Atoms and their Systems,
         '"twin" donors with the same property set in a different order; prop_atype with and without atype (short tables, '
         'absent types, new and existing keys); extend by int (also 0 and negative) and by Atoms with differing property '
         'sets; deepcopy; natypes; System construction (pbc of wrong length, symbols shorter/equal/longer than natypes, '
-        'too many masses), symbols/masses/pbc setters and getters (biased to follow atom-type growth), natypes, '
+        'too many masses), symbols/masses/pbc setters; the OBSERVATION ORDER is part of the history: System.symbols, '
+        'masses, natypes, atypes, composition and str(system) are operations of their own, queued after an operation with '
+        'probability 1/2 (9/10 after an operation that makes the number of atom types grow through the atoms: indexed '
+        'atype write, prop_atype relabel, whole-column write, 5-6% of the operations; 10% of all generated atom types are '
+        '4-6) as 1-4 different getters of one system in random order, and nothing else ever reads them (the state dump '
+        'compares the STORED tuples, the oracle reads no getter outside these operations and closes every history with '
+        'one read of every getter of every system in random order); '
         'atoms_prop with and without scale (including atype written through scale=True), atoms_ix get/set with Atoms and '
         'System donors, atoms_extend with scale and symbols; 12% of the operations are deliberately malformed so that '
         'every refusal branch is exercised. After EVERY operation the reply (value / new object / exception class) and '
@@ -102,8 +115,10 @@ RULE = ('histories of 4-30 operations over up to 7 live Atoms and their Systems,
         'in its history; distinct = distinct (operation, arguments) JSON; pkeys/drop count as trivial. The search runs '
         'histories of valid operations (plus 3% hostile atype writes that must be refused) against an independent '
         'record-per-atom oracle and evaluates the clauses (natoms, keys, rectangular, dtype/shape, string width, values, '
-        'atype >= 1, attribute mirror, padding, symbols/masses content, no aliasing of prop() results and of copying '
-        'operations) on the real objects after every step; failing histories are shrunk one operation at a time.')
+        'atype >= 1, attribute mirror, no aliasing of prop() results and of copying operations) on the real objects after '
+        'every step, and at every getter operation: reply never shorter than the number of atom types of the record '
+        'model (masses: than System.natypes) and equal to the reply of the specification, in which the padding of the '
+        'stored tuples is lazy and sticky as well; failing histories are shrunk one operation at a time.')
 ASSUMPTIONS = [
     'numpy semantics used by Atoms/System are as transcribed in lean/Atomman/C06.lean (mini-numpy: basic slices are '
     'views, integer-list / boolean indexing, deepcopy, np.array(np.broadcast_to()), np.zeros copy; assignment '
@@ -116,6 +131,9 @@ ASSUMPTIONS = [
     'relative->Cartesian conversion is exact in double arithmetic',
     'direct mutation of handed-out live arrays (atoms.pos[0] = ..., atoms.view[key][...] = ...) is not an operation of '
     'the grammar: the property speaks about the accessor API',
+    'System.composition and str(system) are modelled as far as they touch the hidden tuples (composition completely: '
+    'counts per type, None for a present type without symbol, gcd reduction, sorted symbols; str only through the '
+    'natypes it prints)',
     'Python object identity / garbage collection is not modelled: an object that became unreachable stays in the model '
     'state (the invariant is proved for those as well)',
 ]
@@ -260,6 +278,7 @@ class World:
         self.atoms = OrderedDict()    # handle -> am.Atoms
         self.syss = OrderedDict()     # handle -> am.System
         self.mid = {}                 # handle -> model id
+        self.pending = []             # observation operations queued by schedule_obs (issued before anything else)
 
     def live_arrays(self):
         out = []
@@ -308,8 +327,10 @@ def op_line(op, W):
             return ' '.join([f"op mksys {m[op['o']]}", cm.frs(op['box']), str(len(op['pbc']))]
                             + ['1' if b else '0' for b in op['pbc']]
                             + [syms_wire(op.get('symbols')), masses_wire(op.get('masses'))])
-        if k in ('symget', 'massget', 'snatypes'):
+        if k in ('symget', 'massget', 'snatypes', 'satypes', 'scomp'):
             return f"op {k} {m[op['s']]}"
+        if k == 'sstr':              # str(system) reads natoms, natypes, symbols, pbc: the model's natypes read
+            return f"op snatypes {m[op['s']]}"
         if k == 'symset':
             return f"op symset {m[op['s']]} {syms_wire(op['symbols'])}"
         if k == 'massset':
@@ -449,6 +470,16 @@ def exec_real(op, W):
             rep = 'ok'
         elif k == 'snatypes':
             rep = 'ok n %d' % S[op['s']].natypes
+        elif k == 'satypes':
+            r = S[op['s']].atypes
+            rep = ' '.join(['ok t', str(len(r))] + [str(int(x)) for x in r])
+        elif k == 'scomp':
+            r = S[op['s']].composition
+            rep = 'ok c ' + ('~' if r is None else '_' + str(r))
+        elif k == 'sstr':
+            r = str(S[op['s']])
+            mt = re.search(r'^natypes = (\d+)$', r, re.M)
+            rep = 'ok n ' + (mt.group(1) if mt else '?')
         elif k == 'spset':
             S[op['s']].atoms_prop(key=op['key'], index=ix_py(op.get('ix')), value=lit_arg(op['val']),
                                   scale=bool(op['scale']))
@@ -543,7 +574,7 @@ def dump_line(W):
 def gen_cells(rng, dt, n, key=None):
     if dt == 'i':
         if key == 'atype':
-            return [rng.choice([1, 1, 2, 2, 3]) for _ in range(n)]
+            return [rng.choice([1, 1, 2, 2, 3]) if rng.random() < 0.9 else rng.choice([4, 5, 6]) for _ in range(n)]
         return [rng.randint(-3, 9) for _ in range(n)]
     if dt == 'f':
         if key == 'atype':
@@ -703,18 +734,106 @@ def gen_masses(rng, lo=0, hi=4):
     return [cm.dyadic(rng, 1, 64, 2) if rng.random() < 0.85 else None for _ in range(rng.randint(lo, hi))]
 
 
+GETTERS = ['massget', 'massget', 'massget', 'symget', 'symget', 'snatypes', 'snatypes', 'satypes', 'scomp', 'sstr']
+OBSERVERS = ('symget', 'massget', 'snatypes', 'satypes', 'scomp', 'sstr')
+
+
+def raw_natypes(a):
+    """number of atom types read off the raw array (the generator must not call Atoms.natypes / System.natypes: a
+    read by the harness that is not an operation of the history could fill or heal hidden state and would be missing
+    from the replayed history)."""
+    try:
+        arr = a.view['atype']
+        return int(arr.max()) if arr.size and arr.min() >= 1 else None
+    except Exception:
+        return None
+
+
+def schedule_obs(rng, W, op, p=0.5, nmass=None):
+    """observation order is part of the history: after an operation, with probability p, 1-4 DIFFERENT getters of one
+    system (preferably one built on the object just touched) are queued in random order as operations of their own.
+    Nothing else reads System.symbols / masses / natypes, so a stored tuple that went stale stays stale until one of
+    these (or a later operation of the history) reads it."""
+    if not W.syss or op['op'] in OBSERVERS or op['op'] == 'drop' or W.pending:
+        return
+    if rng.random() >= (0.9 if op.get('grow') else p):
+        return
+    near = []
+    if 's' in op and op['s'] in W.syss:
+        near = [op['s']]
+    elif 'o' in op and op['o'] in W.atoms:
+        a = W.atoms[op['o']]
+        near = [h for h, s in W.syss.items() if s.atoms is a]
+    sh = rng.choice(near) if near and rng.random() < 0.75 else rng.choice(list(W.syss))
+    kinds = []
+    for g in rng.sample(GETTERS, rng.choice([1, 1, 2, 2, 3, 4])):
+        if g not in kinds:
+            kinds.append(g)
+    W.pending = [{'op': g, 's': sh} for g in kinds]
+    if rng.random() < (0.35 if op.get('grow') else 0.08):
+        # the setters read hidden state as well: `masses = [...]` as the FIRST thing after the operation (one mass per
+        # atom type is legal whether or not symbols was read since the types grew)
+        n = 5 if nmass is None else nmass(sh)
+        if n is not None:
+            ms = gen_masses(rng, 0, n) if rng.random() < 0.4 else gen_masses(rng, n, n)
+            W.pending.insert(0, {'op': 'massset', 's': sh, 'masses': ms})
+
+
+def next_pending(W):
+    while W.pending:
+        op = W.pending.pop(0)
+        if op['s'] in W.syss:
+            return op
+    return None
+
+
+def gen_grow(rng, W, sh, nt):
+    """an operation that makes the number of atom types of system sh's atoms grow THROUGH THE ATOMS (the system is
+    not told): indexed write, prop_atype relabel, whole-column write; `nt` = current number of atom types."""
+    s = W.syss[sh]
+    ah = next((h for h, a in W.atoms.items() if a is s.atoms), None)
+    n = s.atoms.natoms
+    if ah is None or n == 0:
+        return None
+    big = nt + rng.choice([1, 1, 2, 3])
+    c = rng.random()
+    if c < 0.3:
+        return {'op': 'spset', 's': sh, 'key': 'atype', 'ix': ['I', rng.randint(-n, n - 1)], 'val': lit('i', [], [big]),
+                'scale': False, 'grow': True}
+    if c < 0.55:
+        pool = list(range(n))
+        rng.shuffle(pool)
+        sel = pool[:rng.randint(1, n)]
+        return {'op': 'pset', 'o': ah, 'key': 'atype', 'ix': ['L', sel], 'val': lit('i', [], [big]), 'grow': True}
+    if c < 0.8:
+        return {'op': 'patype', 'o': ah, 'key': 'atype', 'val': lit('i', [], [big]), 't': rng.randint(1, nt), 'grow': True}
+    data = [rng.randint(1, nt) for _ in range(n)]
+    data[rng.randrange(n)] = big
+    return {'op': 'setv', 'o': ah, 'key': 'atype', 'val': lit('i', [n], data), 'via': rng.choice(['view', 'attr']),
+            'grow': True}
+
+
 def gen_op(rng, W, k, malformed=0.12):
     """next operation given the live real objects (the generator sees only shapes/keys, never values)."""
     A, S = W.atoms, W.syss
+    pend = next_pending(W)
+    if pend is not None:
+        return pend
     bad = rng.random() < malformed
     if not A or (len(A) < 2 and rng.random() < 0.5) or rng.random() < 0.04:
         return gen_new(rng, k)
+    if S and rng.random() < 0.05:
+        sh = rng.choice(list(S))
+        nt = raw_natypes(S[sh].atoms)
+        g = gen_grow(rng, W, sh, nt) if nt is not None else None
+        if g is not None:
+            return g
     if len(A) <= 6 and rng.random() < 0.03:
         tw = gen_twin(rng, A[rng.choice(list(A))], k)
         if tw is not None:
             return tw
     if S and rng.random() < 0.05:
-        return {'op': rng.choice(['symget', 'massget', 'snatypes']), 's': rng.choice(list(S))}
+        return {'op': rng.choice(GETTERS), 's': rng.choice(list(S))}
     if len(A) > 6:
         bound = {id(s.atoms) for s in S.values()}
         free = [h for h, a in A.items() if id(a) not in bound]
@@ -729,11 +848,11 @@ def gen_op(rng, W, k, malformed=0.12):
     kinds = ['setv'] * 10 + ['pget'] * 6 + ['pkeys'] + ['pgeta'] * 3 + ['pset'] * 10 + ['pseta'] * 3 + ['geti'] * 8 \
         + ['seti'] * 5 + ['patype'] * 5 + ['exti'] * 3 + ['exta'] * 5 + ['dcopy'] * 2 + ['natypes'] * 2 + ['mksys'] * 4
     if S:
-        kinds += ['symget', 'symset', 'massget', 'massset', 'pbcset', 'snatypes'] * 2 + ['spget', 'spgeta'] \
-            + ['spset'] * 4 + ['spseta'] * 2 + ['sext'] * 5 + ['ixget'] * 4 + ['ixset'] * 3
+        kinds += ['symget', 'symset', 'massget', 'massset', 'pbcset', 'snatypes'] * 2 + ['satypes', 'scomp', 'sstr'] \
+            + ['spget', 'spgeta'] + ['spset'] * 4 + ['spseta'] * 2 + ['sext'] * 5 + ['ixget'] * 4 + ['ixset'] * 3
     kind = rng.choice(kinds)
-    if kind in ('symget', 'symset', 'massget', 'massset', 'pbcset', 'snatypes', 'spget', 'spgeta', 'spset', 'spseta',
-                'sext', 'ixget', 'ixset'):
+    if kind in ('symget', 'symset', 'massget', 'massset', 'pbcset', 'snatypes', 'satypes', 'scomp', 'sstr', 'spget',
+                'spgeta', 'spset', 'spseta', 'sext', 'ixget', 'ixset'):
         sh = rng.choice(list(S))
         s = S[sh]
         a = s.atoms
@@ -827,10 +946,7 @@ def gen_op(rng, W, k, malformed=0.12):
     if kind == 'ixget':
         return {'op': 'ixget', 's': sh, 'ix': gen_index(rng, n, bad), 'id': k}
     if kind == 'patype':
-        try:
-            nt = a.natypes
-        except Exception:
-            nt = 1
+        nt = raw_natypes(a) or 1
         key = rng.choice(KEYS + keys)
         if key in keys:
             cls, trail = arr_info(a.view[key])
@@ -873,7 +989,7 @@ def gen_op(rng, W, k, malformed=0.12):
         if rng.random() < 0.5:
             op['masses'] = gen_masses(rng, 0, 4 if bad else 3)
         return op
-    if kind in ('symget', 'massget', 'snatypes'):
+    if kind in OBSERVERS:
         return {'op': kind, 's': sh}
     if kind == 'symset':
         return {'op': 'symset', 's': sh, 'symbols': gen_syms(rng, 0, 5)}
@@ -1020,6 +1136,7 @@ def correspond(ctx):
                 skipped += 1
                 continue
             ops.append(op)
+            schedule_obs(rng, W, op)
             ctx.stats.case('op:' + op['op'], json.dumps(op, sort_keys=True, default=str),
                            nontrivial=op['op'] not in ('pkeys', 'drop'),
                            sample=op if len(json.dumps(op, default=str)) < 400 else None)
@@ -1053,11 +1170,59 @@ class ORec:
 
 
 class OSys:
-    def __init__(self, atoms_h, box, symbols, masses):
+    """specification of System.symbols / masses / natypes: the tuples as last assigned, padded with None.  The padding
+    is LAZY and STICKY in the specification as well (a tuple is padded when it is assigned and whenever it is read,
+    never shortened): `nt` below is always the number of atom types of the record model at that moment."""
+
+    def __init__(self, atoms_h, box):
         self.atoms_h = atoms_h
         self.box = box
-        self.symbols = list(symbols)   # as last assigned (spec: getter returns these, padded with None)
-        self.masses = list(masses)
+        self.symbols = []
+        self.masses = []
+
+    def get_symbols(self, nt):
+        self.symbols = self.symbols + [None] * (nt - len(self.symbols))
+        return list(self.symbols)
+
+    def set_symbols(self, nt, value):
+        self.symbols = list(value) + [None] * (nt - len(value))
+
+    def natypes(self, nt):
+        return max(len(self.get_symbols(nt)), nt)
+
+    def get_masses(self, nt):
+        n = self.natypes(nt)
+        self.masses = self.masses + [None] * (n - len(self.masses))
+        return list(self.masses)
+
+    def set_masses(self, nt, value):
+        n = self.natypes(nt)
+        if len(value) > n:
+            raise AssertionError(('more masses than atom types', value, n))
+        self.masses = [None if m is None else float(m) for m in value] + [None] * (n - len(value))
+
+    def composition(self, nt, types):
+        n = self.natypes(nt)
+        sy = self.get_symbols(nt)
+        counts = {}
+        for i in range(n):
+            c = sum(1 for x in types if x == i + 1)
+            if c > 0:
+                if sy[i] is None:
+                    return None
+                counts[sy[i]] = counts.get(sy[i], 0) + c
+        g = 0
+        for c in counts.values():
+            g = math.gcd(g, c)
+        return ''.join(k + ('' if counts[k] // g == 1 else str(counts[k] // g)) for k in sorted(counts))
+
+
+def new_osys(atoms_h, box, nt, symbols, masses):
+    """System(atoms, box, symbols=, masses=): the two setters, symbols first."""
+    y = OSys(atoms_h, box)
+    y.set_symbols(nt, symbols)
+    y.set_masses(nt, masses)
+    return y
 
 
 def o_cell(cls, x):
@@ -1190,7 +1355,8 @@ def oracle_apply(op, O, OS):
         O['a%d' % op['id']] = o.clone_rows(o_positions(o.n, op['ix']))
         if k == 'ixget':
             y = OS[op['s']]
-            OS['s%d' % op['id']] = OSys('a%d' % op['id'], y.box, y.symbols, [])
+            nw = O['a%d' % op['id']]
+            OS['s%d' % op['id']] = new_osys('a%d' % op['id'], y.box, o_natypes(nw), y.get_symbols(o_natypes(o)), [])
     elif k == 'dcopy':
         o = O[op['o']]
         O['a%d' % op['id']] = o.clone_rows(range(o.n))
@@ -1243,6 +1409,8 @@ def oracle_apply(op, O, OS):
             y = OS[op['s']]
             h = y.atoms_h
             val = op['value']
+            # `symbols = self.symbols` is read before anything else happens
+            sext_syms = op['symbols'] if op.get('symbols') is not None else y.get_symbols(o_natypes(O[h]))
         else:
             h = op['o']
             val = ['i', op['n']] if k == 'exti' else ['a', op['src']]
@@ -1273,21 +1441,45 @@ def oracle_apply(op, O, OS):
                 nw.recs[o.n + j]['pos'] = o_rtc_row(b, r['pos'])
         O['a%d' % op['id']] = nw
         if k == 'sext':
-            OS['s%d' % op['id']] = OSys('a%d' % op['id'], y.box,
-                                        op['symbols'] if op.get('symbols') is not None else y.symbols, [])
+            OS['s%d' % op['id']] = new_osys('a%d' % op['id'], y.box, o_natypes(nw), sext_syms, [])
     elif k == 'mksys':
         ms = op.get('masses') or []
         sy = op['symbols'] if op.get('symbols') is not None else [None] * len(ms)
-        OS['s%d' % op['id']] = OSys(op['o'], [Fraction(x) for x in op['box']], sy, ms)
+        OS['s%d' % op['id']] = new_osys(op['o'], [Fraction(x) for x in op['box']], o_natypes(O[op['o']]), sy, ms)
     elif k == 'symset':
-        OS[op['s']].symbols = list(op['symbols'])
+        y = OS[op['s']]
+        y.set_symbols(o_natypes(O[y.atoms_h]), op['symbols'])
     elif k == 'massset':
-        OS[op['s']].masses = list(op['masses'])
-    elif k in ('symget', 'massget', 'snatypes', 'natypes', 'pkeys', 'pbcset'):
+        y = OS[op['s']]
+        y.set_masses(o_natypes(O[y.atoms_h]), op['masses'])
+    elif k in OBSERVERS:
+        out = oracle_observe(op, O, OS)
+    elif k == 'natypes':
+        out = ('ok n %d' % o_natypes(O[op['o']]), None)
+    elif k in ('pkeys', 'pbcset'):
         pass
     else:
         raise AssertionError(k)
     return out, written
+
+
+def oracle_observe(op, O, OS):
+    """what a getter must reply (wire form of exec_real) and the lower bounds the property puts on its length."""
+    y = OS[op['s']]
+    o = O[y.atoms_h]
+    nt = o_natypes(o)
+    k = op['op']
+    if k == 'symget':
+        return 'ok y ' + syms_wire(y.get_symbols(nt)), nt
+    if k == 'massget':
+        return 'ok w ' + masses_wire(y.get_masses(nt)), y.natypes(nt)
+    if k in ('snatypes', 'sstr'):
+        return 'ok n %d' % y.natypes(nt), nt
+    if k == 'satypes':
+        n = y.natypes(nt)
+        return ' '.join(['ok t', str(n)] + [str(i + 1) for i in range(n)]), nt
+    c = y.composition(nt, [int(r['atype'][0]) for r in o.recs])
+    return 'ok c ' + ('~' if c is None else '_' + c), None
 
 
 def o_rtc_row(b, r):
@@ -1336,21 +1528,9 @@ def check_clauses(op, W, O, OS, pre_arrays, out, created):
                 raise Violation('atype<1', f'{h}: atype {arr.tolist()} contains a value < 1 (after {k})')
             if key not in type(a).__dict__ and getattr(a, key, None) is not arr:
                 raise Violation('mirror', f'{h}.{key}: attribute no longer mirrors view[{key!r}] (after {k})')
-    for h, s in W.syss.items():
-        y = OS[h]
-        try:
-            nt = s.atoms.natypes
-        except ValueError:
-            continue
-        sy, ms = s.symbols, s.masses
-        if len(sy) < nt or len(ms) < nt:
-            raise Violation('padding', f'{h}: natypes {nt} but len(symbols)={len(sy)}, len(masses)={len(ms)} (after {k})')
-        exp = list(y.symbols) + [None] * (len(sy) - len(y.symbols))
-        if list(sy)[:len(exp)] != exp[:len(sy)] and len(sy) >= len(y.symbols):
-            raise Violation('symbols', f'{h}: symbols {sy}, expected {y.symbols} padded with None')
-        expm = [None if m is None else float(m) for m in y.masses]
-        if list(ms)[:len(expm)] != expm:
-            raise Violation('masses', f'{h}: masses {ms}, expected {expm} padded with None')
+    # System.symbols / masses / natypes / atypes / composition are NOT read here: reading them pads the stored tuples
+    # (it would heal a stale tuple before the history's own reads see it).  They are observed only by the getter
+    # operations of the history (check_observed), in whatever order the history issues them.
     # copies do not alias, operands of copying operations are covered by the value clause above
     if k in ('pget', 'spget') and out is not None:
         r = getattr(W, 'last_out', None)
@@ -1368,6 +1548,22 @@ def check_clauses(op, W, O, OS, pre_arrays, out, created):
                 for (h, key2, arr) in pre_arrays:
                     if np.shares_memory(obj.view[key], arr):
                         raise Violation('alias:' + k, f'{k}: new object {hname}.{key} shares memory with {h}.{key2}')
+
+
+def check_observed(op, rep, exp):
+    """clauses of a getter operation: never shorter than the number of atom types (of the record model), and equal to
+    the specification's reply."""
+    want, lower = exp
+    k = op['op']
+    tk = rep.split(' ')
+    if lower is not None and k in ('symget', 'massget', 'satypes') and int(tk[2]) < lower:
+        what = {'symget': 'symbols', 'massget': 'masses', 'satypes': 'atypes'}[k]
+        raise Violation('padding', f"{op['s']}.{what} returned {int(tk[2])} entries ({rep[5:]}) with {lower} atom types "
+                        f'(read as `{k}` at this point of the history)')
+    if lower is not None and k in ('snatypes', 'sstr') and tk[2].isdigit() and int(tk[2]) < lower:
+        raise Violation('padding', f"{op['s']}.natypes = {tk[2]} ({k}) but the atoms hold {lower} atom types")
+    if rep != want:
+        raise Violation('observed:' + k, f"{op.get('s', op.get('o'))}: {k} replied `{rep}`, the specification `{want}`")
 
 
 def resync(W, O, written):
@@ -1424,6 +1620,16 @@ def gen_valid_index(rng, n, nonempty=False, unique=True):
 def gen_valid_op(rng, W, O, OS, k):
     np = _np()
     A, S = W.atoms, W.syss
+    pend = next_pending(W)
+    if pend is not None and OS[pend['s']].atoms_h in A and O[OS[pend['s']].atoms_h].n > 0:
+        return pend
+    if S and rng.random() < 0.06:
+        cands = [x for x in S if OS[x].atoms_h in A and O[OS[x].atoms_h].n > 0]
+        if cands:
+            sh = rng.choice(cands)
+            g = gen_grow(rng, W, sh, o_natypes(O[OS[sh].atoms_h]))
+            if g is not None:
+                return g
     if not A or (len(A) < 2 and rng.random() < 0.5) or rng.random() < 0.04:
         n = rng.choice([1, 2, 3, 4, 5])
         op = {'op': 'new', 'id': k, 'atype': gen_lit(rng, 'i', [n], 'atype'), 'pos': gen_lit(rng, 'f', [n, 3])}
@@ -1444,8 +1650,6 @@ def gen_valid_op(rng, W, O, OS, k):
         tw = gen_twin(rng, A[rng.choice(list(A))], k)
         if tw is not None:
             return tw
-    if S and rng.random() < 0.05:
-        return {'op': rng.choice(['symget', 'massget', 'snatypes']), 's': rng.choice(list(S))}
     if len(A) > 6:
         bound = {id(s.atoms) for s in S.values()}
         free = [h for h, a in A.items() if id(a) not in bound]
@@ -1458,10 +1662,10 @@ def gen_valid_op(rng, W, O, OS, k):
     if n == 0:
         return {'op': 'pkeys', 'o': h}
     kinds = ['setv'] * 8 + ['pget'] * 5 + ['pgeta'] * 3 + ['pset'] * 9 + ['pseta'] * 3 + ['geti'] * 7 + ['seti'] * 5 \
-        + ['patype'] * 5 + ['exti'] * 3 + ['exta'] * 5 + ['dcopy'] * 2 + ['mksys'] * 4
+        + ['patype'] * 5 + ['exti'] * 3 + ['exta'] * 5 + ['dcopy'] * 2 + ['mksys'] * 4 + ['natypes'] * 2
     if S:
-        kinds += ['symget', 'symset', 'massget', 'massset', 'snatypes'] * 2 + ['spget', 'spgeta'] + ['spset'] * 4 \
-            + ['sext'] * 6 + ['ixget'] * 4 + ['ixset'] * 3
+        kinds += ['symget', 'symset', 'massget', 'massset', 'snatypes'] * 2 + ['satypes', 'scomp', 'sstr'] \
+            + ['spget', 'spgeta'] + ['spset'] * 4 + ['sext'] * 6 + ['ixget'] * 4 + ['ixset'] * 3
     kind = rng.choice(kinds)
     sh = None
     if rng.random() < 0.03:
@@ -1490,9 +1694,9 @@ def gen_valid_op(rng, W, O, OS, k):
         data = [1] * n
         data[rng.randrange(n)] = bad
         return {'op': 'setv', 'o': h, 'key': 'atype', 'val': lit(dt, [n], data), 'via': 'view', 'hostile': True}
-    if kind in ('symget', 'symset', 'massget', 'massset', 'snatypes', 'spget', 'spgeta', 'spset', 'sext', 'ixget',
-                'ixset'):
-        cands = [x for x in S if O[OS[x].atoms_h].n > 0 and OS[x].atoms_h in A]
+    if kind in ('symget', 'symset', 'massget', 'massset', 'snatypes', 'satypes', 'scomp', 'sstr', 'spget', 'spgeta',
+                'spset', 'sext', 'ixget', 'ixset'):
+        cands = [x for x in S if OS[x].atoms_h in A and O[OS[x].atoms_h].n > 0]
         if not cands:
             return {'op': 'pkeys', 'o': h}
         sh = rng.choice(cands)
@@ -1629,6 +1833,8 @@ def gen_valid_op(rng, W, O, OS, k):
                 'symbols': gen_syms(rng, 0, 4) if rng.random() < 0.3 else None, 'id': k}
     if kind == 'dcopy':
         return {'op': 'dcopy', 'o': h, 'id': k}
+    if kind == 'natypes':
+        return {'op': 'natypes', 'o': h}
     if kind == 'mksys':
         nt = o_natypes(o)
         op = {'op': 'mksys', 'o': h, 'id': k, 'box': gen_box(rng), 'pbc': [rng.random() < 0.5 for _ in range(3)]}
@@ -1640,13 +1846,14 @@ def gen_valid_op(rng, W, O, OS, k):
             if op.get('symbols') is None:
                 op['masses'] = op['masses'][:max(nt, len(op['masses']) and nt)]
         return op
-    if kind in ('symget', 'massget', 'snatypes'):
+    if kind in OBSERVERS:
         return {'op': kind, 's': sh}
     if kind == 'symset':
         return {'op': 'symset', 's': sh, 'symbols': gen_syms(rng, 0, 5)}
     if kind == 'massset':
-        s = S[sh]
-        nt = max(len(s._System__symbols), o_natypes(o))
+        # as many masses as System.natypes allows at this moment (computed from the specification's hidden tuple
+        # without reading it, so that the choice does not pad anything)
+        nt = max(len(OS[sh].symbols), o_natypes(o))
         return {'op': 'massset', 's': sh, 'masses': gen_masses(rng, 0, nt)}
     raise RuntimeError(kind)
 
@@ -1657,11 +1864,25 @@ def run_oracle_history(ops_or_gen, rng=None, length=0, ctx=None):
     ops = []
     fixed = isinstance(ops_or_gen, list)
     i = 0
-    while (i < len(ops_or_gen)) if fixed else (len(ops) < length):
+    closing = None
+    while True:
         if fixed:
+            if i >= len(ops_or_gen):
+                break
             op = ops_or_gen[i]
-        else:
+        elif len(ops) < length:
             op = gen_valid_op(rng, W, O, OS, i)
+        else:
+            # the history ends with a full observation of every system, each getter once, in random order (only now:
+            # a full dump after every operation would pad every stale tuple before the history's own reads see it)
+            if closing is None:
+                closing = []
+                for sh in rng.sample(list(W.syss), len(W.syss)):
+                    if OS[sh].atoms_h in W.atoms and O[OS[sh].atoms_h].n > 0:
+                        closing += [{'op': g, 's': sh} for g in rng.sample(list(OBSERVERS), len(OBSERVERS))]
+            if not closing:
+                break
+            op = closing.pop(0)
         i += 1
         if op['op'] == 'drop':
             apply_drop(op, W)
@@ -1698,6 +1919,9 @@ def run_oracle_history(ops_or_gen, rng=None, length=0, ctx=None):
             except (AssertionError, KeyError, IndexError, ValueError) as e:   # generator produced something the spec
                 return ops, Violation('oracle-internal', f'oracle cannot follow {op}: {e!r}')  # does not define
             resync(W, O, written)
+            if op['op'] in OBSERVERS or op['op'] == 'natypes':
+                check_observed(op, rep, out)
+                out = None
             if op['op'] in ('pget', 'spget'):
                 got = real_rows(_np().asarray(W.last_out).reshape((len(out),) + (-1,))) if len(out) else []
                 if [tuple(r) for r in got] != [tuple(r) for r in out]:
@@ -1705,6 +1929,9 @@ def run_oracle_history(ops_or_gen, rng=None, length=0, ctx=None):
             check_clauses(op, W, O, OS, pre_arrays, out, created)
         except Violation as v:
             return ops, v
+        if not fixed and closing is None:
+            schedule_obs(rng, W, op, nmass=lambda x: (max(len(OS[x].symbols), o_natypes(O[OS[x].atoms_h]))
+                                                      if OS[x].atoms_h in W.atoms and O[OS[x].atoms_h].n > 0 else None))
         if ctx is not None:
             ctx.stats.case('oracle:' + op['op'], json.dumps(op, sort_keys=True, default=str))
     return ops, None
